@@ -339,6 +339,7 @@ func runCase(w *out.W, id string, sc *scenario, tags ...string) {
 	}
 	in, _ := decode(sc.build("int"))
 	cyc := scenarioCyclic(sc)
+	hyp := scenarioWF(sc) && scenarioConsistent(sc)
 	var obs []string
 	nontrivial := false
 	for _, ep := range []struct {
@@ -358,6 +359,9 @@ func runCase(w *out.W, id string, sc *scenario, tags ...string) {
 		}
 		verdict, viol := judge(sc, in, r.outp)
 		obs = append(obs, fmt.Sprintf("%s out=%s replay=%s", ep.name, showOut(r.outp), verdict))
+		if !hyp {
+			viol = nil // outside WF / consistent the property says nothing; the case is compared only
+		}
 		for _, v := range viol {
 			class := v.class
 			if class == "fk-before-table" && cyc && isRepoint(sc, v) {
@@ -368,7 +372,7 @@ func runCase(w *out.W, id string, sc *scenario, tags ...string) {
 		}
 		if ep.name == "sort" {
 			// the hypotheses of the theorems on this case, and C04_safe_exact's prediction
-			if scenarioWF(sc) && scenarioConsistent(sc) {
+			if hyp {
 				w.Count("hyp:WF+consistent")
 				predicted := "ok"
 				if cyc && !scenarioOrdered(sc) {
@@ -640,7 +644,7 @@ func genRaw(w *out.W, tier string) {
 }
 
 func genRandom(w *out.W, tier string) {
-	w.Rule = "seeded random: 2..12 tables with roles created/dropped/modified/untouched, edge density 5..60%, a random reading per modified table, random input order and FK order, sometimes a second FK to the same parent and sometimes a reference through the other object of the same table (pointer differs, name equal). Non-trivial = the planned order differs from the input order; distinct by case line"
+	w.Rule = "seeded random: 2..12 tables with roles created/dropped/modified/untouched, edge density 5..60%, a random reading per modified table, random input order and FK order, sometimes a second FK to the same parent and sometimes a reference through the other object of the same table (pointer differs, name equal); 1 case in 10 leaves the theorems' hypotheses (table recreation, wrong ForeignKey.Table of a dropped table, key to a dropped table) and is compared with the model only, the oracle is consulted on the cases that satisfy WF+consistent. Non-trivial = the planned order differs from the input order; distinct by case line"
 	r := rng.FromEnv(0xC04)
 	count := 12000
 	if tier == "thorough" {
@@ -706,7 +710,50 @@ func genRandom(w *out.W, tier string) {
 				}
 			}
 		}
-		runCase(w, fmt.Sprintf("r%d", k), sc, fmt.Sprintf("n:%d", n), fmt.Sprintf("bias:%d", bias))
+		tags := []string{fmt.Sprintf("n:%d", n), fmt.Sprintf("bias:%d", bias)}
+		// Outside the theorems' hypotheses (correspondence only, the oracle is not consulted): the
+		// shapes sqlx.Diff never emits but the code has arms for. 1 case in 10.
+		if r.Chance(1, 10) {
+			switch r.Intn(3) {
+			case 0: // table recreation: DROP + CREATE of the same name (dependsOn's "Table recreation" arm)
+				for _, c := range sc.cs {
+					// at most 12 changes: beyond that Go's sort.Slice is no longer the stable insertion sort the
+					// executable model uses (the theorems cover every tie-break, the comparison cannot)
+					if c.kind == 'A' && len(sc.cs) < 12 {
+						i := c.t.name
+						sc.cat.tabs = append(sc.cat.tabs, i)
+						pos := r.Intn(len(sc.cs) + 1)
+						d := chg{kind: 'D', t: cur(i)}
+						sc.cs = append(sc.cs[:pos:pos], append([]chg{d}, sc.cs[pos:]...)...)
+						tags = append(tags, "nonwf:recreate")
+						break
+					}
+				}
+			case 1: // a dropped table's key whose Table field names another table
+				for ci := range sc.cs {
+					if c := &sc.cs[ci]; c.kind == 'D' && len(c.fks) > 0 {
+						c.fks[0].tab = cur((c.t.name + 1) % n)
+						tags = append(tags, "nonwf:child-field")
+						break
+					}
+				}
+			case 2: // a created table declaring a key to a dropped table
+				var a, d = -1, -1
+				for ci, c := range sc.cs {
+					if c.kind == 'A' && a < 0 {
+						a = ci
+					}
+					if c.kind == 'D' && d < 0 {
+						d = ci
+					}
+				}
+				if a >= 0 && d >= 0 {
+					sc.cs[a].fks = append(sc.cs[a].fks, fkey{60, sc.cs[a].t, sc.cs[d].t})
+					tags = append(tags, "nonwf:key-to-dropped")
+				}
+			}
+		}
+		runCase(w, fmt.Sprintf("r%d", k), sc, tags...)
 	}
 }
 
